@@ -4,9 +4,8 @@ A case is a gen_mdp-style JSON-able dict (numbers are 'n/d' strings = exact rati
 implementation receives float(Fraction), the Coq model the rational itself).  It is a SUPERSET of a
 gen_mdp case (gen_mdp.arrays / impl/build.py:build_mdp work on it unchanged):
 
-  n, nA     states 0..n-1, actions 0..nA-1; EVERY action is available in every state
-            (the agent cannot condition its action set on a state it does not see)
-  actions   [[0..nA-1]] * n
+  n, nA     states 0..n-1, actions 0..nA-1; by default EVERY action is available in every state
+  actions   [[0..nA-1]] * n   (state-dependent subsets only with gen_pomdp(state_actions=...))
   trans     {"s,a": [[ns, "p"], ...]}    probabilities on the grid k/8, may list "0" entries
   reward    {"s,a,ns": "r"}              missing = 0
   absorbing [bool]*n                     the declared is_absorbing flag
@@ -108,7 +107,7 @@ def _symmetric(mat):
 
 def gen_pomdp(rng, nmax=5, amax=3, omax=4, gamma=None, min_states=2, zero_entries=True,
               nonpos=False, goal=True, absorbing_selfloop=.7, tiny=0.0, near_twin=0.0, big_rewards=0.0,
-              force_reachable=True, ghosts=0.0):
+              force_reachable=True, ghosts=0.0, state_actions=0.0):
     """All of the following are OPT-IN (default off; when off they consume no randomness, so the
     default stream of cases is stable for every property that shares this generator):
     tiny        probability that the POMDP gets very rare (2^-30 / 2^-40) observation entries (obs_tiny)
@@ -121,11 +120,17 @@ def gen_pomdp(rng, nmax=5, amax=3, omax=4, gamma=None, min_states=2, zero_entrie
                 state_ghost = [n]: a successor state listed with "0" in some transition rows, reachable from
                 nowhere (NOT in state_list; n does not count it); it has observation rows "a,n" because the
                 dictionary filter asks for observation_dist(a, ns) of every LISTED successor
+    state_actions probability that the action set depends on the state (case["actions"][s] a proper subset for
+                some s; every action is offered somewhere) AND some positive-probability transition s --a--> ns
+                enters a state ns that does not offer a.  "trans" / "obs" stay defined for EVERY (s, a) / (a, ns):
+                the observation kernel is indexed by (action taken, state reached), whatever ns offers.
+                Only (belief, action) pairs with the action offered in every state of the belief's support are
+                meaningful (see admissible_actions); use full_arrays for the completed exact kernels.
     force_reachable=False  leaves states unreachable from the initial distribution (for POMDPs whose
                 state list is given explicitly)"""
     while True:
         case = _gen_once(rng, nmax, amax, omax, gamma, min_states, zero_entries, nonpos, goal, absorbing_selfloop,
-                         force_reachable)
+                         force_reachable, state_actions)
         if case is not None:
             case["obs_tiny"] = []
             if tiny and rng.random() < tiny:
@@ -211,7 +216,7 @@ def _add_tiny(rng, case, omax):
 
 
 def _gen_once(rng, nmax, amax, omax, gamma, min_states, zero_entries, nonpos, goal, absorbing_selfloop,
-              force_reachable=True):
+              force_reachable=True, state_actions=0.0):
     n = rng.randint(min_states, nmax)
     nA = rng.randint(1, amax)
     nO = rng.randint(1, omax)
@@ -246,6 +251,16 @@ def _gen_once(rng, nmax, amax, omax, gamma, min_states, zero_entries, nonpos, go
                         else F(rng.randint(-4, 0 if nonpos else 4))
                     if r != 0:
                         reward["%d,%d,%d" % (s, a, ns)] = str(r)
+    if state_actions and nA >= 2 and n >= 2 and rng.random() < state_actions:
+        for _ in range(50):
+            acts = [sorted(rng.sample(range(nA), rng.randint(1, nA))) if rng.random() < .6 else list(range(nA))
+                    for _s in range(n)]
+            if {a for x in acts for a in x} != set(range(nA)):
+                continue
+            if any(a not in acts[ns] for s in range(n) for a in acts[s]
+                   for ns, p in trans["%d,%d" % (s, a)] if F(p) > 0):
+                actions = acts
+                break
     # observation kernels
     kinds, obs = [], {}
     for a in range(nA):
@@ -307,6 +322,37 @@ def exact_arrays(case):
     P, R, av, absf, ini = gen_mdp.arrays(case, sl, al)
     Ob = obs_arrays(case, al, sl, list(range(case["nO"])))
     return P, R, absf, ini, Ob
+
+
+def full_arrays(case, state_list, action_list):
+    """like gen_mdp.arrays, but P / R rows are filled for EVERY (s, a) the case defines, offered or not
+    (gen_mdp.arrays mirrors transition_matrix: zero rows for actions a state does not offer)"""
+    nS, nA = len(state_list), len(action_list)
+    sidx = {s: i for i, s in enumerate(state_list)}
+    P = [[[F(0)] * nS for _ in range(nA)] for _ in range(nS)]
+    R = [[[F(0)] * nS for _ in range(nA)] for _ in range(nS)]
+    for si, s in enumerate(state_list):
+        for ai, a in enumerate(action_list):
+            for ns, p in case["trans"]["%d,%d" % (s, a)]:
+                p = F(p)
+                if ns not in sidx:
+                    if p != 0:
+                        raise KeyError("successor %r outside state list" % ns)
+                    continue
+                P[si][ai][sidx[ns]] = p
+                if p != 0:
+                    R[si][ai][sidx[ns]] = F(case["reward"].get("%d,%d,%d" % (s, a, ns), "0"))
+    absf = [bool(case["absorbing"][s]) for s in state_list]
+    ini = [F(0)] * nS
+    for s, p in case["init"]:
+        if s in sidx:
+            ini[sidx[s]] = F(p)
+    return P, R, absf, ini
+
+
+def admissible_actions(case, b):
+    """action ids offered in every state that carries belief mass (b: sequence over state ids)"""
+    return [a for a in range(case["nA"]) if all(a in case["actions"][s] for s in range(case["n"]) if F(b[s]) > 0)]
 
 
 def joint_exact(P, Ob, b, a, o):
@@ -406,6 +452,9 @@ def features(case):
     f.update({
         "nO": case["nO"],
         "obs_tiny": bool(case.get("obs_tiny")),
+        "enters_state_without_the_action_taken": any(
+            a not in case["actions"][ns] for s in range(case["n"]) for a in case["actions"][s]
+            for ns, p in case["trans"]["%d,%d" % (s, a)] if F(p) > 0 and ns < case["n"]),
         "obs_near_twin": bool(case.get("obs_near_twin")),
         "obs_ghost": bool(case.get("obs_ghost")), "state_ghost": bool(case.get("state_ghost")),
         "big_rewards": bool(case.get("reward_scale")),
